@@ -1,0 +1,67 @@
+//go:build verif
+
+package tls
+
+import (
+	"bytes"
+	"io"
+	"net"
+	"time"
+)
+
+// Verification hook for property C32 (record reader / handshake reassembly on arbitrary byte streams).
+
+type zvStreamConn struct {
+	r *bytes.Reader
+}
+
+func (c *zvStreamConn) Read(p []byte) (int, error)         { return c.r.Read(p) }
+func (c *zvStreamConn) Write(p []byte) (int, error)        { return len(p), nil }
+func (c *zvStreamConn) Close() error                       { return nil }
+func (c *zvStreamConn) LocalAddr() net.Addr                { return nil }
+func (c *zvStreamConn) RemoteAddr() net.Addr               { return nil }
+func (c *zvStreamConn) SetDeadline(t time.Time) error      { return nil }
+func (c *zvStreamConn) SetReadDeadline(t time.Time) error  { return nil }
+func (c *zvStreamConn) SetWriteDeadline(t time.Time) error { return nil }
+
+// ZVC32Event is one successful readHandshake call.
+type ZVC32Event struct {
+	Type byte
+	Len  int // length of the whole message including the 4-byte header
+}
+
+// ZVC32ReadHandshakes feeds stream to the real record reader of a fresh connection that has no cipher yet
+// (vers != 0: the version is already negotiated) and calls the real readHandshake until it fails.
+// It returns the messages delivered, the number of stream bytes consumed as complete records, the number of bytes
+// left in the handshake reassembly buffer, the useless-record counter, and whether the failure was a clean EOF.
+func ZVC32ReadHandshakes(stream []byte, vers uint16) (ev []ZVC32Event, consumed int, handLen int, retry int, eof bool) {
+	sc := &zvStreamConn{r: bytes.NewReader(stream)}
+	c := &Conn{conn: sc, config: &Config{}, isClient: true}
+	if vers != 0 {
+		c.vers = vers
+		c.haveVers = true
+		c.in.version = vers
+		c.out.version = vers
+	}
+	c.in.Lock()
+	defer c.in.Unlock()
+	for {
+		msg, err := c.readHandshake()
+		if err != nil {
+			eof = err == io.EOF
+			break
+		}
+		hm, ok := msg.(handshakeMessage)
+		if !ok {
+			break
+		}
+		raw := hm.marshal()
+		var t byte
+		if len(raw) > 0 {
+			t = raw[0]
+		}
+		ev = append(ev, ZVC32Event{Type: t, Len: len(raw)})
+	}
+	consumed = len(stream) - sc.r.Len() - c.rawInput.Len()
+	return ev, consumed, c.hand.Len(), c.retryCount, eof
+}
